@@ -499,3 +499,14 @@ Proof.
   replace e with (E (eref e)) by (destruct e as [x t]; simpl in *; subst; reflexivity).
   apply (bdd_count_is_canon_size s B (eref e) _ D).
 Qed.
+
+(** ** Examples: the count is computable and gives the expected numbers *)
+
+Example ex_canon_size :
+  canon_size_bdd (nlevels ex_snap) (cfun_of ex_snap (ex_edge (RN 3))) = 5%N /\
+  count_reach ex_snap (ex_edge (RN 3)) = 5%N /\
+  canon_size_bdd 4 (lvl_fun [0; 1; 2; 3] (fun a => (a 0 && a 1) || (a 2 && a 3))) = 6%N /\
+  canon_size_bdd 4 (lvl_fun [0; 2; 1; 3] (fun a => (a 0 && a 1) || (a 2 && a 3))) = 8%N /\
+  canon_size_bdd 3 (fun _ => true) = 1%N /\
+  canon_size_bdd 3 (fun c => Nat.eqb (c 1) 0) = 3%N.
+Proof. vm_compute. repeat split; reflexivity. Qed.
